@@ -42,3 +42,93 @@ Proof.
     pose proof (unresumed_plan_runs_nothing d sh I tr r0 r Hi Hn H) as HF.
     eapply Forall_impl; [|exact HF]. intros e He. destruct e; auto; contradiction.
 Qed.
+
+(* ------------------------------------------------------------------ ... for well-formed images *)
+From Coercion.Resume Require Import ImgWf RepairSound.
+
+Lemma rinit_resumable sh im rs r0 :
+  ist im OPlan = Running -> rinit sh im rs = Some r0 -> resumable_ok (pln_of sh im) = true.
+Proof.
+  unfold rinit. intros -> H. simpl in H. destruct (resumable_ok (pln_of sh im)); [reflexivity|discriminate].
+Qed.
+
+(* one crash: the image only has to be well-formed when its plan is Running (otherwise nothing runs at all) *)
+Lemma noreexec_of_wf d sh I tr r0 r :
+  (cst I OPlan = Running -> img_wf sh (dimg_of_image I) = true) ->
+  rinit sh (dimg_of_image I) (im_reason I) = Some r0 ->
+  rrun d sh r0 tr = Some r ->
+  mon_noreexec I tr = true.
+Proof.
+  intros Hwf Hi H. destruct (status_eqb (cst I OPlan) Running) eqn:Ep.
+  - apply status_eqb_eq in Ep.
+    assert (Hp : ist (dimg_of_image I) OPlan = Running) by (now rewrite ist_dimg_of_image).
+    eapply noreexec_of_repair_sound; eauto.
+    apply repair_sound_holds; auto. eapply rinit_resumable; eauto.
+  - unfold mon_noreexec. rewrite first_bad_none; [reflexivity|].
+    assert (Hn : cst I OPlan <> Running) by (intro E; rewrite E in Ep; discriminate).
+    pose proof (unresumed_plan_runs_nothing d sh I tr r0 r Hi Hn H) as HF.
+    eapply Forall_impl; [|exact HF]. intros e He. destruct e; auto; contradiction.
+Qed.
+
+(* ------------------------------------------------------------------ chains of crashes
+   A chain: the process that restarts on image I does tr and crashes after k of its writes; the next process
+   restarts on the durable image that leaves behind; and so on.  Images are (durable image, plan reason). *)
+Fixpoint chain_accepted (d : devs) (sh : shape) (im : dimg) (rs : reason) (steps : list (list event * nat)) : Prop :=
+  match steps with
+  | [] => True
+  | (tr, k) :: rest =>
+      (exists r0 r, rinit sh im rs = Some r0 /\ rrun d sh r0 tr = Some r)
+      /\ chain_accepted d sh (fst (crash_from im rs tr k)) (snd (crash_from im rs tr k)) rest
+  end.
+
+Fixpoint chain_wf (sh : shape) (im : dimg) (rs : reason) (steps : list (list event * nat)) : Prop :=
+  match steps with
+  | [] => True
+  | (tr, k) :: rest =>
+      (ist im OPlan = Running -> img_wf sh im = true)
+      /\ chain_wf sh (fst (crash_from im rs tr k)) (snd (crash_from im rs tr k)) rest
+  end.
+
+(* every EvStart of every process of the chain is of work that the image THAT process restarted on shows unfinished *)
+Fixpoint chain_noreexec (sh : shape) (im : dimg) (rs : reason) (steps : list (list event * nat)) : Prop :=
+  match steps with
+  | [] => True
+  | (tr, k) :: rest =>
+      Forall (fun e => match e with
+                       | EvStart a => ist im OPlan = Running /\ ok_start im a
+                       | _ => True end) tr
+      /\ chain_noreexec sh (fst (crash_from im rs tr k)) (snd (crash_from im rs tr k)) rest
+  end.
+
+Lemma starts_of_wf d sh im rs tr r0 r :
+  (ist im OPlan = Running -> img_wf sh im = true) ->
+  rinit sh im rs = Some r0 -> rrun d sh r0 tr = Some r ->
+  Forall (fun e => match e with EvStart a => ist im OPlan = Running /\ ok_start im a | _ => True end) tr.
+Proof.
+  intros Hwf Hi H. destruct (status_eqb (ist im OPlan) Running) eqn:Ep.
+  - apply status_eqb_eq in Ep.
+    assert (RS : repair_sound sh im).
+    { apply repair_sound_holds; auto. eapply rinit_resumable; eauto. }
+    pose proof (resumed_starts_ok sh im RS d rs r0 tr r Ep Hi H) as HF.
+    eapply Forall_impl; [|exact HF]. intros e He. destruct e; auto.
+  - assert (Hidle : idle r0) by (eapply rinit_idle; eauto).
+    pose proof (idle_run d sh tr r0 r Hidle H) as HF.
+    eapply Forall_impl; [|exact HF]. intros e He. destruct e; auto; contradiction.
+Qed.
+
+Lemma crash_chain_noreexec d sh steps : forall im rs,
+  chain_accepted d sh im rs steps -> chain_wf sh im rs steps -> chain_noreexec sh im rs steps.
+Proof.
+  induction steps as [|[tr k] rest IH]; intros im rs Ha Hw; simpl in *; [exact Logic.I|].
+  destruct Ha as [(r0 & r & Hi & Hr) Ha]. destruct Hw as [Hw0 Hw]. split; [|now apply IH].
+  eapply starts_of_wf; eauto.
+Qed.
+
+Lemma repair_sound_facts sh I :
+  img_wf sh I = true -> ist I OPlan = Running -> resumable_ok (pln_of sh I) = true ->
+  (forall fl b, block_of sh b <> None -> is_terminal (ist I (OBlock b)) = true -> is_terminal (blk_st sh I fl b) = true)
+  /\ (forall fl b q, seq_of sh b q <> None -> is_terminal (blk_st sh I fl b) = false -> ~ In (b, q) (resumed sh I) ->
+        ~ cf (seq_st0 sh I b q) -> open_from sh I b q 0)
+  /\ (forall b q, In (b, q) (resumed sh I) ->
+        ist I (OBlock b) = Running /\ seq_of sh b q <> None /\ open_from sh I b q (first_open (pln_of sh I) b q)).
+Proof. intros H1 H2 H3. destruct (repair_sound_holds sh I H1 H2 H3) as [A B C]. auto. Qed.
